@@ -67,8 +67,11 @@ def run_case(case):
         c["expected"] = S.q99(c["delay"]) if c is not tc else expected
     for n in spec["nodes"]:
         n["expected"] = S.q99(n["delay"])
+    if rnd.random() < 0.5:
+        tc["name"] = "in_" + tc["out"]  # shadow input name: init_delays is documented to be keyed by the INPUT name
+    in_name = tc.get("name", tc["out"])
     dg = S.digest(dict(spec=spec, tc=(tc["out"], tc["inp"])))
-    cfg = dict(conn=(tc["out"], tc["inp"]), window=tc["window"], rate_out=rate, min=dmin, max=dmax, d=d, d_static=d_static, d0=d0, way=way, expected=expected,
+    cfg = dict(conn=(tc["out"], tc["inp"]), input_name=tc.get("name"), window=tc["window"], rate_out=rate, min=dmin, max=dmax, d=d, d_static=d_static, d0=d0, way=way, expected=expected,
                jitter_free=jitter_free)
     out = {}
     ts_max = rnd.choice([0.8, 1.2])
@@ -79,16 +82,16 @@ def run_case(case):
                 c["delay"] = ["train", d0, dmin, dmax, "zoh"] if sysname == "T" else ["det", d_static]
         nodes, sup, cg = C.generated_graph(sp, ts_max=ts_max, num_episodes=1, seed=case["spec_seed"], trace="io", hash_ts=False)
         if sysname == "T" and way in ("init_delays", "init_delays_lower", "saturate_hi", "saturate_lo"):
-            nodes[tc["inp"]].delay_overrides = {tc["out"]: d}
+            nodes[tc["inp"]].delay_overrides = {in_name: d}
         try:
             G = C.build_compiled(nodes, sup, cg, mode=case.get("mode", "mcs"), prune=True)
         except C.Rejected as e:
             return dict(items=[dict(status="rejected", key=dg, nontrivial=False, note=str(e)[:120])], counters={"rejected_graph": 1})
         gs = G.init(jax.random.PRNGKey(case["spec_seed"] + 1))
         if sysname == "T" and way == "alpha":
-            dd = gs.inputs[tc["inp"]][tc["out"]].delay_dist
-            new_in = gs.inputs[tc["inp"]][tc["out"]].replace(delay_dist=dd.replace(alpha=dd.get_alpha(d)))
-            gs = gs.replace(inputs=gs.inputs.copy({tc["inp"]: gs.inputs[tc["inp"]].copy({tc["out"]: new_in})}))
+            dd = gs.inputs[tc["inp"]][in_name].delay_dist
+            new_in = gs.inputs[tc["inp"]][in_name].replace(delay_dist=dd.replace(alpha=dd.get_alpha(d)))
+            gs = gs.replace(inputs=gs.inputs.copy({tc["inp"]: gs.inputs[tc["inp"]].copy({in_name: new_in})}))
         W.trace_clear()
         res = jax.jit(G.rollout)(gs)
         jax.block_until_ready(res)
